@@ -231,6 +231,9 @@ def corpus_mutations(n, rng, bases):
     return out
 
 
+PRIM_LEAVES = ["string", "float", "double", "unsigned int", "int", "hyper", "unsigned hyper", "bool"]
+
+
 def graph_spec(nodes, rng=None):
     """nodes: list of (kind, own_opaque, refs) with kind in struct/union/typedef; names g0..; refs are indices
     (or -1 for an undeclared name).  Edge kinds are drawn from rng (or plain when rng is None)."""
@@ -242,7 +245,8 @@ def graph_spec(nodes, rng=None):
     name = lambda i: ((pool[i] if pool and i < len(pool) else "g%d" % i) if i >= 0 else "undeclared")
     for i, (kind, own, refs) in enumerate(nodes):
         if kind == "typedef":
-            ty = "opaque" if own else (name(refs[0]) if refs else "int")
+            # a typedef of a primitive: every spelling whose Rust name differs from the XDR one is in the draw
+            ty = "opaque" if own else (name(refs[0]) if refs else (rng.choice(PRIM_LEAVES) if rng else "int"))
             arr = None
             if rng and not own and refs and ty != name(i):
                 arr = rng.choice([None, ["fixed", "2"], ["var", ""], ["var", "3"]])
@@ -254,6 +258,11 @@ def graph_spec(nodes, rng=None):
             for j, r in enumerate(refs):
                 c = rng.below(4) if rng else 0
                 fs.append({"ty": name(r), "name": "f%d" % j, "arr": [None, ["fixed", "2"], ["var", ""], None][c], "opt": c == 3})
+            if rng and rng.chance(1, 2):
+                # primitive leaves: no edge, whatever the declarations are called
+                for j in range(1 + rng.below(2)):
+                    p = rng.choice(PRIM_LEAVES)
+                    fs.append({"ty": p, "name": "p%d" % j, "arr": (["var", ""] if p == "string" else rng.choice([None, None, ["fixed", "2"], ["var", ""]])), "opt": False})
             if not fs:
                 fs.append({"ty": "int", "name": "x", "arr": None, "opt": False})
             items.append({"k": "struct", "name": name(i), "fields": fs})
@@ -261,6 +270,8 @@ def graph_spec(nodes, rng=None):
             arms = []
             lab = 0
             bodies = ([{"ty": "opaque", "name": "o", "arr": None}] if own else []) + [{"ty": name(r), "name": "a%d" % j, "arr": None} for j, r in enumerate(refs)]
+            if rng and rng.chance(1, 2):
+                bodies.insert(rng.below(len(bodies) + 1), {"ty": rng.choice([p for p in PRIM_LEAVES if p != "string"]), "name": "p", "arr": None})
             for j, b in enumerate(bodies):
                 if rng and j == len(bodies) - 1 and rng.chance(1, 3):
                     arms.append({"default": True, "labels": [], "body": b})
